@@ -1,7 +1,9 @@
 (** C09corr.v — correspondence and monitor of property C09.
 
     Correspondence: as for C01 — every recorded trace must be accepted by
-    model/M5lb.v.
+    model/M5lb.v (restarts included: the monitors below do not distinguish
+    balancers restored by a KRestored event from deployed ones — the restore's
+    KStateSet adding->healthy and KRotation events are replayed like any other).
 
     Monitor [c09_ok]: the property on the OBSERVED trace alone: the rotation of
     every balancer is replayed from its KRotation events; every KLbClaim must
